@@ -184,7 +184,7 @@ func registerBigIntrinsics(in map[string]Intrinsic) {
 		if x == nil {
 			return nil, ctlStay
 		}
-		return bitLenTerm(x), ctlNext
+		return IBitLen(x), ctlNext
 	}
 	in[bi+"TrailingZeroBits"] = func(w *Worker, g *G, fr *Frame, fn *ssa.Function, a []Value) (Value, ctl) {
 		if !w.e.theoryBig {
@@ -194,17 +194,7 @@ func registerBigIntrinsics(in map[string]Intrinsic) {
 		if x == nil {
 			return nil, ctlStay
 		}
-		if x.IsConst() {
-			return BVu(uint64(new(big.Int).Abs(x.C).TrailingZeroBits()), 64), ctlNext
-		}
-		ax := IAbs(x)
-		res := BVu(bigBits, 64)
-		for k := bigBits - 1; k >= 0; k-- {
-			// smallest k with bit k set: |x| mod 2^(k+1) != 0
-			res = Ite(Not(Eq(IntBin(OIMod, ax, IntConst(pow2(k+1))), IntI(0))), BVu(uint64(k), 64), res)
-		}
-		res = Ite(Eq(x, IntI(0)), BVu(0, 64), res)
-		return res, ctlNext
+		return ITz(x), ctlNext
 	}
 	in[bi+"IsInt64"] = func(w *Worker, g *G, fr *Frame, fn *ssa.Function, a []Value) (Value, ctl) {
 		if !w.e.theoryBig {
@@ -293,6 +283,15 @@ func registerBigIntrinsics(in map[string]Intrinsic) {
 			y := w.bigOf(g, a[2])
 			if y == nil {
 				return nil, ctlStay
+			}
+			// exact arithmetic forms for constant masks (two's complement identities)
+			if r, ok := bitopConst(op, x, y); ok {
+				w.bigSet(g, a[0], r)
+				return a[0], ctlNext
+			}
+			if r, ok := bitopConst(op, y, x); ok {
+				w.bigSet(g, a[0], r)
+				return a[0], ctlNext
 			}
 			const W = 264
 			lim := IntConst(pow2(W - 1))
@@ -421,6 +420,10 @@ func registerBigIntrinsics(in map[string]Intrinsic) {
 			return nil, ctlStay
 		}
 		if x.IsConst() && n.IsConst() {
+			if n.C.Sign() == 0 {
+				w.raise(g, w.rtError("division by zero"))
+				return nil, ctlStay
+			}
 			r := new(big.Int).ModInverse(x.C, n.C)
 			if r == nil {
 				return PtrV{}, ctlNext
@@ -481,4 +484,43 @@ func (w *Worker) fallThrough(g *G, fr *Frame, fn *ssa.Function, args []Value) (V
 	g.frames = append(g.frames, nf)
 	w.enterBlock(nf)
 	return nil, ctlStay
+}
+
+// bitopConst handles x op c for constant c with an exact integer formula.
+func bitopConst(op Op, x, c *Term) (*Term, bool) {
+	if !c.IsConst() {
+		return nil, false
+	}
+	minus1 := big.NewInt(-1)
+	switch op {
+	case OBvAnd:
+		if c.C.Sign() == 0 {
+			return IntI(0), true
+		}
+		if c.C.Cmp(minus1) == 0 {
+			return x, true
+		}
+		// mask 2^k-1: x mod 2^k (Euclidean) is the low k bits in two's complement
+		if c.C.Sign() > 0 {
+			k := c.C.BitLen()
+			if new(big.Int).Add(c.C, bigOne).Cmp(pow2(k)) == 0 {
+				return IntBin(OIMod, x, IntConst(pow2(k))), true
+			}
+		}
+	case OBvOr:
+		if c.C.Sign() == 0 {
+			return x, true
+		}
+		if c.C.Cmp(minus1) == 0 {
+			return IntI(-1), true
+		}
+	case OBvXor:
+		if c.C.Sign() == 0 {
+			return x, true
+		}
+		if c.C.Cmp(minus1) == 0 {
+			return IntBin(OISub, INeg(x), IntI(1)), true
+		}
+	}
+	return nil, false
 }
